@@ -225,9 +225,11 @@ type coder struct {
 	// MaxDepth is the longest Huffman code emitted (a code longer than 16 bits cannot be
 	// represented by the classic 16 bit EncodeChar).
 	MaxDepth int
+	SymHist  [nChar]int
 }
 
 func (c *coder) encodeChar(sym int) {
+	c.SymHist[sym]++
 	// leaf-to-root path, emitted root first; bit 1 when the node index is odd
 	var path []uint
 	for k := c.m.prnt[sym+tSize]; k != root; k = c.m.prnt[k] {
@@ -250,6 +252,7 @@ func (c *coder) encodePosition(p int) {
 
 // Stats describes what an encoder run did.
 type Stats struct {
+	SymHist  [nChar]int
 	Rebuilds int
 	MaxDepth int
 	Literals int
@@ -447,7 +450,7 @@ func Encode(in []byte, b2 bool) ([]byte, Stats) {
 		}
 	}
 	c.w.flush()
-	st.Rebuilds, st.MaxDepth = c.m.Rebuilds, c.MaxDepth
+	st.Rebuilds, st.MaxDepth, st.SymHist = c.m.Rebuilds, c.MaxDepth, c.SymHist
 	return header(len(in), b2, c.w.out), st
 }
 
